@@ -1,5 +1,6 @@
 import TM.Mirror
 import Props.C03
+import Props.C10
 import Props.C11
 /-!
 # C11 (second half) — the `TTYFrontend` mirror model (`TM/Mirror.lean`)
@@ -49,6 +50,15 @@ Property theorems:
   `regionChanged_empty_keeps_sync` (empty `D ∩ R`), `attach_establishes_sync` (the invariant
   after `Attach` on a fresh outer terminal) and `mirror_invariant_run` (the invariant along any
   list of (inner change, `RegionChanged`) steps).
+* Part 8, the mirror driven by the MODEL TERMINAL's own announcements (`import Props.C10`):
+  `regionChanged_keeps_sync'` (inner no-cut facts only at an edge of the painted window that is
+  not the region's edge), `regionChanged_fullwidth` (a full-width `D`, as the model announces:
+  nothing asked of the inner rows beyond `RowOK`, nothing about what the outer rows showed),
+  `feedDamage_spec`, **`mirror_follows_token`** (any token, buffer switches included; the mirror
+  is told every region of `Term.damage t tok`; invariant `SyncedRegion ∧ OuterGrid ∧ NoStraddle`
+  kept), `mirror_follows_run`, `attach_nostraddle`, **`attach_then_follow`** (fresh outer
+  terminal, `Attach`, then any list of tokens), and sessions with interleaved cursor callbacks:
+  `cursorOp_spec`, `session_invariant`, `session_cursor`.
 
 Hypotheses the proofs needed, all explicit:
 * `cw 32 ≤ 1` — the blank that stands for a cell of a cut wide character is the character U+0020
@@ -2412,6 +2422,841 @@ theorem mirror_invariant_run (cw : Nat → Nat) (m : Mirror) (ha : m.attached = 
       rw [q2] at hrest ⊢
       exact ih _ sNew (og.resize hw hh) q3 hrest
 
+/-! ## Part 8 — the mirror driven by the model terminal's own announcements -/
+
+namespace Lemmas
+
+/-- `synced_newRow` with the inner no-cut hypotheses only where the painted window's edge is not
+    the region's edge (there both views cut the inner row at the same column) -/
+theorem synced_newRow' (cw : Nat → Nat) (O r rNew : Row) (W x0 x02 x x2 : Nat)
+    (hOl : O.length = W) (hOwf : rowWF O = true) (hsync : Synced O r x0 x02)
+    (hx0 : x0 ≤ x) (hx : x < x2) (hx2 : x2 ≤ x02) (hx02 : x02 ≤ W)
+    (hox : contAt O x = false) (hox2 : contAt O x2 = false)
+    (hnl : rNew.length = W) (hnew : RowOK cw rNew) (hsp : cw 32 ≤ 1)
+    (hleft : x0 < x → ∀ j, j < x → rNew[j]? = r[j]?)
+    (hright : x2 < x02 → ∀ j, x2 ≤ j → rNew[j]? = r[j]?)
+    (hnx : x = x0 ∨ contAt rNew x = false) (hnx2 : x2 = x02 ∨ contAt rNew x2 = false) :
+    Synced (newRow O rNew x x2) rNew x0 x02 ∧ (newRow O rNew x x2).length = W ∧
+      rowWF (newRow O rNew x x2) = true := by
+  have hok := subCells_rowOK cw rNew x x2 hnew (by omega) hsp
+  have inv := paintInv_newRow cw O (subCells rNew x x2) x x2 hOwf hx (by omega)
+    (subCells_length rNew x x2) hok
+  rw [TM.C03.Lemmas.fixAt_of_not_cont hox] at inv
+  have hF : newRow O rNew x x2 = repaintedRow O x x2 (subCells rNew x x2) := by
+    unfold newRow; rw [TM.C03.Lemmas.fixAt_of_not_cont hox]
+  rw [hF]
+  refine ⟨?_, by rw [inv.hlen, hOl], inv.hwf⟩
+  have hwfN := hnew.wf
+  intro i h1 h2
+  rw [subCells_getElem? rNew x0 x02 (i - x0) (by omega), show x0 + (i - x0) = i by omega]
+  have hold := hsync i h1 h2
+  rw [subCells_getElem? r x0 x02 (i - x0) (by omega), show x0 + (i - x0) = i by omega] at hold
+  rw [inv.cell i (by omega)]
+  by_cases hA : i < x
+  · rw [if_pos hA, hold]
+    congr 1
+    exact (cutCell_congr (fun j _ j2 => hleft (by omega) j (by omega))).symm
+  · rw [if_neg hA]
+    by_cases hB : i < x2
+    · rw [if_pos hB, subCells_getElem? rNew x x2 (i - x) (by omega), show x + (i - x) = i by omega]
+      congr 1
+      obtain ⟨t, w, st, hch, _, q3, _, q5⟩ := TM.C03.Lemmas.wf_head hwfN (show i < rNew.length by omega)
+      have hle := TM.C03.Lemmas.headOf_le rNew i
+      by_cases hin : Inside rNew x0 x02 i
+      · have hin' : Inside rNew x x2 i := by
+          obtain ⟨i1, i2⟩ := hin
+          rw [q5] at i2
+          refine ⟨?_, ?_⟩
+          · rcases hnx with e | e
+            · omega
+            · exact headOf_ge_of_clean (i := i) e (by omega)
+          · rw [q5]
+            rcases hnx2 with e | e
+            · omega
+            · false_or_by_contra
+              obtain ⟨_, _, cs, _⟩ := TM.C03.Lemmas.wf_ch hwfN hch
+              have := cs x2 (by omega) (by omega)
+              rw [e] at this; cases this
+        rw [cutCell_of_inside hin, cutCell_of_inside hin']
+      · have hin' : ¬ Inside rNew x x2 i := fun h => hin ⟨by have := h.1; omega, by have := h.2; omega⟩
+        rw [cutCell_of_not_inside hin, cutCell_of_not_inside hin']
+    · have hge := headOf_ge_of_clean (i := i) hox2 (by omega)
+      rw [if_neg hB, if_neg (by omega), hold]
+      congr 1
+      have hrx2 : contAt r x2 = false := by
+        rw [← TM.C03.Lemmas.contAt_congr (hright (by omega) x2 (Nat.le_refl _))]
+        rcases hnx2 with e | e
+        · omega
+        · exact e
+      have hger := headOf_ge_of_clean (i := i) hrx2 (by omega)
+      exact (cutCell_congr (fun j j1 _ => hright (by omega) j (by omega))).symm
+
+end Lemmas
+open Lemmas
+
+/-- `regionChanged_keeps_sync` with the inner no-cut hypotheses weakened: at an edge of the painted
+    window that IS the region's edge (`P.x = R.x` resp. `P.x2 = R.x2`, clamped) nothing is asked
+    of the new inner row — both views cut it at the same column. -/
+theorem regionChanged_keeps_sync' (cw : Nat → Nat) (m : Mirror) (o : Term) (sOld sNew : Scr)
+    (D : MRegion) (ha : m.attached = true) (hw : sNew.w = sOld.w) (hh : sNew.h = sOld.h)
+    (og : OuterGrid o sNew) (hsync : SyncedRegion o sOld m.region)
+    (hchg : ∀ y x, ¬ inRect D x y → (sNew.row y)[x]? = (sOld.row y)[x]?)
+    (hP : ((D.inter m.region).clamp sNew.w sNew.h).isEmpty = false)
+    (hrows : ∀ y, ((D.inter m.region).clamp sNew.w sNew.h).y ≤ y →
+      y < ((D.inter m.region).clamp sNew.w sNew.h).y2 →
+      (sNew.row y).length = sNew.w ∧ RowOK cw (sNew.row y))
+    (hnocut : ∀ y, ((D.inter m.region).clamp sNew.w sNew.h).y ≤ y →
+      y < ((D.inter m.region).clamp sNew.w sNew.h).y2 →
+      contAt (o.main.row y) ((D.inter m.region).clamp sNew.w sNew.h).x = false ∧
+      contAt (o.main.row y) ((D.inter m.region).clamp sNew.w sNew.h).x2 = false ∧
+      (((D.inter m.region).clamp sNew.w sNew.h).x = (m.region.clamp sNew.w sNew.h).x ∨
+        contAt (sNew.row y) ((D.inter m.region).clamp sNew.w sNew.h).x = false) ∧
+      (((D.inter m.region).clamp sNew.w sNew.h).x2 = (m.region.clamp sNew.w sNew.h).x2 ∨
+        contAt (sNew.row y) ((D.inter m.region).clamp sNew.w sNew.h).x2 = false))
+    (hsp : cw 32 ≤ 1) (hW : sNew.w ≤ paramMax) (hH : sNew.h ≤ paramMax)
+    (hcx : m.cx < sNew.w) (hcy : m.cy < sNew.h) :
+    let T := (run cw o (m.step sNew (.regionChanged D)).2).1
+    let P' := stDone o (repaintedGrid o sNew (D.inter m.region))
+    (m.step sNew (.regionChanged D)).1 = m ∧
+    SyncedRegion T sNew m.region ∧ OuterGrid T sNew ∧
+    (cursorVisible m → T = withCursor P' m.cx m.cy) ∧
+    (¬ cursorVisible m → T = cursorHidden P') := by
+  intro T P'
+  -- the bytes written
+  have hout : (m.step sNew (.regionChanged D)).2 =
+      renderRegion sNew (D.inter m.region) ++ m.renderCursor := by
+    simp [Mirror.step, Mirror.renderRegion, ha, hP]
+  -- the state reached
+  have hpol : ∀ y, ((D.inter m.region).clamp sNew.w sNew.h).y ≤ y →
+      y < ((D.inter m.region).clamp sNew.w sNew.h).y2 →
+      o.pol = .blank ∨ contAt (o.main.row y) ((D.inter m.region).clamp sNew.w sNew.h).x = false :=
+    fun y h1 h2 => Or.inr (hnocut y h1 h2).1
+  have hP'alt : P'.onAlt = false := og.main
+  have hcur := exec_cursor cw m ha P' hP'alt (by show m.cx < o.main.w; rw [og.width]; exact hcx)
+    (by show m.cy < o.main.h; rw [og.height]; exact hcy) (by omega) (by omega)
+  have hTv : cursorVisible m → T = withCursor P' m.cx m.cy := by
+    intro hv
+    show (run cw o _).1 = _
+    rw [hout]
+    exact Exec.run (exec_repaint_region cw o sNew _ og hP hrows hpol hsp hW hH _ _ (hcur.1 hv))
+  have hTh : ¬ cursorVisible m → T = cursorHidden P' := by
+    intro hv
+    show (run cw o _).1 = _
+    rw [hout]
+    exact Exec.run (exec_repaint_region cw o sNew _ og hP hrows hpol hsp hW hH _ _ (hcur.2 hv))
+  -- rows, size, buffer of `T` are those of `P'`
+  have hTrow : ∀ y, T.main.row y = P'.main.row y := by
+    intro y
+    by_cases hv : cursorVisible m
+    · rw [hTv hv]; rfl
+    · rw [hTh hv]; rfl
+  have hTfix : T.onAlt = false ∧ T.main.w = sNew.w ∧ T.main.h = sNew.h ∧
+      T.main.grid.length = sNew.h := by
+    have hgl : (repaintedGrid o sNew (D.inter m.region)).length = sNew.h := by
+      unfold repaintedGrid; rw [repaintRows_length, og.glen]
+    by_cases hv : cursorVisible m
+    · rw [hTv hv]; exact ⟨og.main, og.width, og.height, hgl⟩
+    · rw [hTh hv]; exact ⟨og.main, og.width, og.height, hgl⟩
+  suffices hsuff : SyncedRegion T sNew m.region ∧ OuterGrid T sNew from
+    ⟨rfl, hsuff.1, hsuff.2, hTv, hTh⟩
+  -- arithmetic of the rectangles
+  obtain ⟨hc1, hc2, hc3, hc4, hc5, hc6⟩ := rect_sub D m.region sNew.w sNew.h
+  have hleftA : (m.region.clamp sNew.w sNew.h).x < ((D.inter m.region).clamp sNew.w sNew.h).x →
+      ∀ j, j < ((D.inter m.region).clamp sNew.w sNew.h).x → j < D.x :=
+    fun h j hj => rect_left D.x m.region.x sNew.w j h hj
+  have hrightA : ((D.inter m.region).clamp sNew.w sNew.h).x2 < (m.region.clamp sNew.w sNew.h).x2 →
+      ∀ j, ((D.inter m.region).clamp sNew.w sNew.h).x2 ≤ j → D.x2 ≤ j :=
+    fun h j hj => rect_right D.x2 m.region.x2 sNew.w j h hj
+  have hrowsA : ∀ y, (m.region.clamp sNew.w sNew.h).y ≤ y → y < (m.region.clamp sNew.w sNew.h).y2 →
+      ¬ (((D.inter m.region).clamp sNew.w sNew.h).y ≤ y ∧ y < ((D.inter m.region).clamp sNew.w sNew.h).y2) →
+      ¬ (D.y ≤ y ∧ y < D.y2) :=
+    fun y h1 h2 hn => rect_rows D.y D.y2 m.region.y m.region.y2 sNew.h y h1 h2 hn
+  have hPne : ((D.inter m.region).clamp sNew.w sNew.h).x < ((D.inter m.region).clamp sNew.w sNew.h).x2 := by
+    simp only [MRegion.isEmpty, Bool.or_eq_false_iff, decide_eq_false_iff_not] at hP; omega
+  have hsync' : ∀ y, (m.region.clamp sNew.w sNew.h).y ≤ y → y < (m.region.clamp sNew.w sNew.h).y2 →
+      Synced (o.main.row y) (sOld.row y) (m.region.clamp sNew.w sNew.h).x
+        (m.region.clamp sNew.w sNew.h).x2 := by
+    intro y h1 h2
+    have := hsync y (by rw [← hw, ← hh]; exact h1) (by rw [← hw, ← hh]; exact h2)
+    rw [← hw, ← hh] at this
+    exact this
+  have hrowT : ∀ y, T.main.row y =
+      if ((D.inter m.region).clamp sNew.w sNew.h).y ≤ y ∧ y < ((D.inter m.region).clamp sNew.w sNew.h).y2
+      then newRow (o.main.row y) (sNew.row y) ((D.inter m.region).clamp sNew.w sNew.h).x
+        ((D.inter m.region).clamp sNew.w sNew.h).x2
+      else o.main.row y := by
+    intro y
+    rw [hTrow]
+    exact repaintedGrid_row o sNew (D.inter m.region) og.glen y
+  clear hTrow hTv hTh hcur hout hpol
+  unfold SyncedRegion
+  clear_value T P'
+  generalize ((D.inter m.region).clamp sNew.w sNew.h) = P at *
+  generalize (m.region.clamp sNew.w sNew.h) = Rc at *
+  -- the repainted rows
+  have hpainted : ∀ y, P.y ≤ y → y < P.y2 →
+      Synced (newRow (o.main.row y) (sNew.row y) P.x P.x2) (sNew.row y) Rc.x Rc.x2 ∧
+      (newRow (o.main.row y) (sNew.row y) P.x P.x2).length = sNew.w ∧
+      rowWF (newRow (o.main.row y) (sNew.row y) P.x P.x2) = true := by
+    intro y h1 h2
+    have hyh : y < sNew.h := by omega
+    obtain ⟨c1, c2, c3, c4⟩ := hnocut y h1 h2
+    obtain ⟨l1, l2⟩ := hrows y h1 h2
+    apply synced_newRow' cw (o.main.row y) (sOld.row y) (sNew.row y) sNew.w Rc.x Rc.x2 P.x P.x2
+      (og.rows y hyh).1 (og.rows y hyh).2 (hsync' y (by omega) (by omega)) (by omega) hPne (by omega)
+      (by omega) c1 c2 l1 l2 hsp
+    · intro hlt j hj
+      apply hchg
+      have := hleftA hlt j hj
+      unfold inRect; omega
+    · intro hlt j hj
+      apply hchg
+      have := hrightA hlt j hj
+      unfold inRect; omega
+    · exact c3
+    · exact c4
+  refine ⟨?_, ⟨hTfix.1, hTfix.2.1, hTfix.2.2.1, hTfix.2.2.2, ?_⟩⟩
+  · -- the invariant
+    intro y h1 h2
+    rw [hrowT]
+    by_cases hp : P.y ≤ y ∧ y < P.y2
+    · rw [if_pos hp]; exact (hpainted y hp.1 hp.2).1
+    · rw [if_neg hp]
+      have hrow : sNew.row y = sOld.row y := by
+        apply List.ext_getElem?
+        intro x
+        apply hchg
+        have := hrowsA y h1 h2 hp
+        unfold inRect; omega
+      rw [hrow]
+      exact hsync' y h1 h2
+  · -- the rows stay well formed
+    intro y hy
+    rw [hrowT]
+    by_cases hp : P.y ≤ y ∧ y < P.y2
+    · rw [if_pos hp]; exact (hpainted y hp.1 hp.2).2
+    · rw [if_neg hp]; exact og.rows y hy
+
+/-- a model `Region` as a mirror region -/
+def toM (r : Region) : MRegion := ⟨r.x1, r.y1, r.x2, r.y2⟩
+
+/-- no outer wide character straddles the left or the right edge of the (clamped) region on the
+    region's rows — an invariant of the mirror: paintings write whole windows `[R.x, R.x2)` -/
+def NoStraddle (o : Term) (s : Scr) (R : MRegion) : Prop :=
+  ∀ y, (R.clamp s.w s.h).y ≤ y → y < (R.clamp s.w s.h).y2 →
+    contAt (o.main.row y) (R.clamp s.w s.h).x = false ∧
+    contAt (o.main.row y) (R.clamp s.w s.h).x2 = false
+
+namespace Lemmas
+
+theorem rect_full (D R : MRegion) (w h : Nat) (hD : D.x = 0 ∧ w ≤ D.x2) :
+    ((D.inter R).clamp w h).x = (R.clamp w h).x ∧ ((D.inter R).clamp w h).x2 = (R.clamp w h).x2 := by
+  simp only [MRegion.clamp, MRegion.inter]
+  omega
+
+theorem rect_rows_in (D R : MRegion) (w h y : Nat) (h1 : (R.clamp w h).y ≤ y)
+    (h2 : y < (R.clamp w h).y2) (h3 : D.y ≤ y) (h4 : y < D.y2) :
+    ((D.inter R).clamp w h).y ≤ y ∧ y < ((D.inter R).clamp w h).y2 := by
+  simp only [MRegion.clamp, MRegion.inter] at *
+  omega
+
+end Lemmas
+open Lemmas
+
+/-- **`RegionChanged(D)` for a full-width `D`** (what the model terminal announces): the painted
+    window has exactly the region's columns, so NOTHING is asked of the inner rows beyond `RowOK`
+    and nothing about what the outer rows showed before: every painted row shows the inner row
+    afterwards, every other row is unchanged, the outer terminal still fits the inner screen and
+    still has no character straddling the region's edges; cursor as in `cursor_spec`. -/
+theorem regionChanged_fullwidth (cw : Nat → Nat) (m : Mirror) (o : Term) (s : Scr) (D : MRegion)
+    (ha : m.attached = true) (og : OuterGrid o s) (hD : D.x = 0 ∧ s.w ≤ D.x2)
+    (hP : ((D.inter m.region).clamp s.w s.h).isEmpty = false)
+    (hrows : ∀ y, ((D.inter m.region).clamp s.w s.h).y ≤ y →
+      y < ((D.inter m.region).clamp s.w s.h).y2 → (s.row y).length = s.w ∧ RowOK cw (s.row y))
+    (hns : NoStraddle o s m.region)
+    (hsp : cw 32 ≤ 1) (hW : s.w ≤ paramMax) (hH : s.h ≤ paramMax)
+    (hcx : m.cx < s.w) (hcy : m.cy < s.h) :
+    let T := (run cw o (m.step s (.regionChanged D)).2).1
+    let P' := stDone o (repaintedGrid o s (D.inter m.region))
+    (∀ y, ((D.inter m.region).clamp s.w s.h).y ≤ y → y < ((D.inter m.region).clamp s.w s.h).y2 →
+      Synced (T.main.row y) (s.row y) (m.region.clamp s.w s.h).x (m.region.clamp s.w s.h).x2) ∧
+    (∀ y, ¬ (((D.inter m.region).clamp s.w s.h).y ≤ y ∧ y < ((D.inter m.region).clamp s.w s.h).y2) →
+      T.main.row y = o.main.row y) ∧
+    OuterGrid T s ∧ NoStraddle T s m.region ∧
+    (cursorVisible m → T = withCursor P' m.cx m.cy) ∧
+    (¬ cursorVisible m → T = cursorHidden P') := by
+  intro T P'
+  obtain ⟨hc1, hc2, hc3, hc4, hc5, hc6⟩ := rect_sub D m.region s.w s.h
+  obtain ⟨hfx, hfx2⟩ := rect_full D m.region s.w s.h hD
+  have hout : (m.step s (.regionChanged D)).2 =
+      renderRegion s (D.inter m.region) ++ m.renderCursor := by
+    simp [Mirror.step, Mirror.renderRegion, ha, hP]
+  have hpol : ∀ y, ((D.inter m.region).clamp s.w s.h).y ≤ y →
+      y < ((D.inter m.region).clamp s.w s.h).y2 →
+      o.pol = .blank ∨ contAt (o.main.row y) ((D.inter m.region).clamp s.w s.h).x = false := by
+    intro y h1 h2
+    right
+    rw [hfx]
+    exact (hns y (by omega) (by omega)).1
+  have hP'alt : P'.onAlt = false := og.main
+  have hcur := exec_cursor cw m ha P' hP'alt (by show m.cx < o.main.w; rw [og.width]; exact hcx)
+    (by show m.cy < o.main.h; rw [og.height]; exact hcy) (by omega) (by omega)
+  have hTv : cursorVisible m → T = withCursor P' m.cx m.cy := by
+    intro hv
+    show (run cw o _).1 = _
+    rw [hout]
+    exact Exec.run (exec_repaint_region cw o s _ og hP hrows hpol hsp hW hH _ _ (hcur.1 hv))
+  have hTh : ¬ cursorVisible m → T = cursorHidden P' := by
+    intro hv
+    show (run cw o _).1 = _
+    rw [hout]
+    exact Exec.run (exec_repaint_region cw o s _ og hP hrows hpol hsp hW hH _ _ (hcur.2 hv))
+  have hTrow : ∀ y, T.main.row y = P'.main.row y := by
+    intro y
+    by_cases hv : cursorVisible m
+    · rw [hTv hv]; rfl
+    · rw [hTh hv]; rfl
+  have hTfix : T.onAlt = false ∧ T.main.w = s.w ∧ T.main.h = s.h ∧ T.main.grid.length = s.h := by
+    have hgl : (repaintedGrid o s (D.inter m.region)).length = s.h := by
+      unfold repaintedGrid; rw [repaintRows_length, og.glen]
+    by_cases hv : cursorVisible m
+    · rw [hTv hv]; exact ⟨og.main, og.width, og.height, hgl⟩
+    · rw [hTh hv]; exact ⟨og.main, og.width, og.height, hgl⟩
+  have hPne : ((D.inter m.region).clamp s.w s.h).x < ((D.inter m.region).clamp s.w s.h).x2 := by
+    simp only [MRegion.isEmpty, Bool.or_eq_false_iff, decide_eq_false_iff_not] at hP; omega
+  have hrowT : ∀ y, T.main.row y =
+      if ((D.inter m.region).clamp s.w s.h).y ≤ y ∧ y < ((D.inter m.region).clamp s.w s.h).y2
+      then newRow (o.main.row y) (s.row y) ((D.inter m.region).clamp s.w s.h).x
+        ((D.inter m.region).clamp s.w s.h).x2
+      else o.main.row y := by
+    intro y
+    rw [hTrow]
+    exact repaintedGrid_row o s (D.inter m.region) og.glen y
+  suffices hsuff : (∀ y, ((D.inter m.region).clamp s.w s.h).y ≤ y →
+      y < ((D.inter m.region).clamp s.w s.h).y2 →
+      Synced (T.main.row y) (s.row y) (m.region.clamp s.w s.h).x (m.region.clamp s.w s.h).x2) ∧
+    (∀ y, ¬ (((D.inter m.region).clamp s.w s.h).y ≤ y ∧ y < ((D.inter m.region).clamp s.w s.h).y2) →
+      T.main.row y = o.main.row y) ∧
+    OuterGrid T s ∧ NoStraddle T s m.region from
+    ⟨hsuff.1, hsuff.2.1, hsuff.2.2.1, hsuff.2.2.2, hTv, hTh⟩
+  clear hTrow hTv hTh hcur hout hpol
+  unfold NoStraddle at hns ⊢
+  clear_value T P'
+  rw [hfx, hfx2] at hrowT hPne
+  generalize ((D.inter m.region).clamp s.w s.h) = P at *
+  generalize (m.region.clamp s.w s.h) = Rc at *
+  -- the painted rows
+  have hpainted : ∀ y, P.y ≤ y → y < P.y2 →
+      Synced (newRow (o.main.row y) (s.row y) Rc.x Rc.x2) (s.row y) Rc.x Rc.x2 ∧
+      ((newRow (o.main.row y) (s.row y) Rc.x Rc.x2).length = s.w ∧
+        rowWF (newRow (o.main.row y) (s.row y) Rc.x Rc.x2) = true) ∧
+      contAt (newRow (o.main.row y) (s.row y) Rc.x Rc.x2) Rc.x = false ∧
+      contAt (newRow (o.main.row y) (s.row y) Rc.x Rc.x2) Rc.x2 = false := by
+    intro y h1 h2
+    have hyh : y < s.h := by omega
+    obtain ⟨l1, l2⟩ := hrows y h1 h2
+    obtain ⟨c1, _⟩ := hns y (by omega) (by omega)
+    have hok := subCells_rowOK cw (s.row y) Rc.x Rc.x2 l2 (by omega) hsp
+    have inv := paintInv_newRow cw (o.main.row y) _ Rc.x Rc.x2 (og.rows y hyh).2 hPne
+      (by rw [(og.rows y hyh).1]; exact hc3) (subCells_length _ _ _) hok
+    rw [TM.C03.Lemmas.fixAt_of_not_cont c1] at inv
+    have hF : newRow (o.main.row y) (s.row y) Rc.x Rc.x2 =
+        repaintedRow (o.main.row y) Rc.x Rc.x2 (subCells (s.row y) Rc.x Rc.x2) := by
+      unfold newRow; rw [TM.C03.Lemmas.fixAt_of_not_cont c1]
+    rw [hF]
+    have hOl := (og.rows y hyh).1
+    refine ⟨?_, ⟨by rw [inv.hlen]; exact hOl, inv.hwf⟩, ?_, inv.clean (og.rows y hyh).2⟩
+    · intro i i1 i2
+      rw [inv.cell i (by omega), if_neg (by omega), if_pos i2]
+    · have hcell := inv.cell Rc.x (by omega)
+      rw [if_neg (Nat.lt_irrefl _), if_pos hPne, Nat.sub_self] at hcell
+      have h0 := TM.C03.Lemmas.wf_cont0 hok.wf
+      unfold contAt at h0 ⊢
+      rw [hcell]; exact h0
+  refine ⟨?_, ?_, ⟨hTfix.1, hTfix.2.1, hTfix.2.2.1, hTfix.2.2.2, ?_⟩, ?_⟩
+  · intro y h1 h2
+    rw [hrowT, if_pos ⟨h1, h2⟩]; exact (hpainted y h1 h2).1
+  · intro y hn
+    rw [hrowT, if_neg hn]
+  · intro y hy
+    rw [hrowT]
+    by_cases hp : P.y ≤ y ∧ y < P.y2
+    · rw [if_pos hp]; exact (hpainted y hp.1 hp.2).2.1
+    · rw [if_neg hp]; exact og.rows y hy
+  · intro y h1 h2
+    rw [hrowT]
+    by_cases hp : P.y ≤ y ∧ y < P.y2
+    · rw [if_pos hp]; exact (hpainted y hp.1 hp.2).2.2
+    · rw [if_neg hp]; exact hns y h1 h2
+
+/-- the outer terminal after the mirror has been told `RegionChanged(D)` for every `D` of the
+    list, in order, each time reading the inner screen `s` and the outer terminal reading what
+    the mirror wrote -/
+def feedDamage (cw : Nat → Nat) (m : Mirror) (s : Scr) : Term → List MRegion → Term
+  | o, [] => o
+  | o, D :: ds => feedDamage cw m s (run cw o (m.step s (.regionChanged D)).2).1 ds
+
+/-- feeding a list of full-width regions: every region row covered by one of them shows the inner
+    row afterwards; a row that showed the inner row keeps showing it; the outer terminal still
+    fits and has no straddler at the region's edges -/
+theorem feedDamage_spec (cw : Nat → Nat) (m : Mirror) (s : Scr) (ha : m.attached = true)
+    (hrows : ∀ y, y < s.h → (s.row y).length = s.w ∧ RowOK cw (s.row y))
+    (hsp : cw 32 ≤ 1) (hW : s.w ≤ paramMax) (hH : s.h ≤ paramMax)
+    (hcx : m.cx < s.w) (hcy : m.cy < s.h) :
+    ∀ (ds : List MRegion) (o : Term), (∀ D ∈ ds, D.x = 0 ∧ s.w ≤ D.x2) →
+    OuterGrid o s → NoStraddle o s m.region →
+    OuterGrid (feedDamage cw m s o ds) s ∧ NoStraddle (feedDamage cw m s o ds) s m.region ∧
+    ∀ y, (m.region.clamp s.w s.h).y ≤ y → y < (m.region.clamp s.w s.h).y2 →
+      ((∃ D ∈ ds, D.y ≤ y ∧ y < D.y2) →
+        Synced ((feedDamage cw m s o ds).main.row y) (s.row y) (m.region.clamp s.w s.h).x
+          (m.region.clamp s.w s.h).x2) ∧
+      (Synced (o.main.row y) (s.row y) (m.region.clamp s.w s.h).x (m.region.clamp s.w s.h).x2 →
+        Synced ((feedDamage cw m s o ds).main.row y) (s.row y) (m.region.clamp s.w s.h).x
+          (m.region.clamp s.w s.h).x2) := by
+  intro ds
+  induction ds with
+  | nil =>
+    intro o _ og hns
+    exact ⟨og, hns, fun y _ _ => ⟨fun ⟨D, hD, _⟩ => (by cases hD), id⟩⟩
+  | cons D ds ih =>
+    intro o hfull og hns
+    have hD := hfull D (by simp)
+    have hy2 : (m.region.clamp s.w s.h).y2 ≤ s.h := by simp only [MRegion.clamp]; omega
+    -- one step
+    have hstep : OuterGrid (run cw o (m.step s (.regionChanged D)).2).1 s ∧
+        NoStraddle (run cw o (m.step s (.regionChanged D)).2).1 s m.region ∧
+        ∀ y, (m.region.clamp s.w s.h).y ≤ y → y < (m.region.clamp s.w s.h).y2 →
+          ((D.y ≤ y ∧ y < D.y2) →
+            Synced ((run cw o (m.step s (.regionChanged D)).2).1.main.row y) (s.row y)
+              (m.region.clamp s.w s.h).x (m.region.clamp s.w s.h).x2) ∧
+          (Synced (o.main.row y) (s.row y) (m.region.clamp s.w s.h).x (m.region.clamp s.w s.h).x2 →
+            Synced ((run cw o (m.step s (.regionChanged D)).2).1.main.row y) (s.row y)
+              (m.region.clamp s.w s.h).x (m.region.clamp s.w s.h).x2) := by
+      cases hP : ((D.inter m.region).clamp s.w s.h).isEmpty with
+      | true =>
+        have hst := region_outside_silent m s D hP
+        have hrun : (run cw o (m.step s (.regionChanged D)).2).1 = o := by
+          rw [hst]; exact Exec.run (Exec.nil cw o)
+        rw [hrun]
+        refine ⟨og, hns, fun y h1 h2 => ⟨fun hc => ?_, id⟩⟩
+        obtain ⟨r1, r2⟩ := rect_rows_in D m.region s.w s.h y h1 h2 hc.1 hc.2
+        obtain ⟨hfx, hfx2⟩ := rect_full D m.region s.w s.h hD
+        simp only [MRegion.isEmpty, Bool.or_eq_true, decide_eq_true_eq] at hP
+        intro i i1 i2
+        omega
+      | false =>
+        obtain ⟨q1, q2, q3, q4, _, _⟩ := regionChanged_fullwidth cw m o s D ha og hD hP
+          (fun y a b => hrows y (by
+            have := (rect_sub D m.region s.w s.h).2.2.2.2.1; omega)) hns hsp hW hH hcx hcy
+        refine ⟨q3, q4, fun y h1 h2 => ⟨fun hc => ?_, fun hs => ?_⟩⟩
+        · obtain ⟨r1, r2⟩ := rect_rows_in D m.region s.w s.h y h1 h2 hc.1 hc.2
+          exact q1 y r1 r2
+        · by_cases hp : ((D.inter m.region).clamp s.w s.h).y ≤ y ∧
+              y < ((D.inter m.region).clamp s.w s.h).y2
+          · exact q1 y hp.1 hp.2
+          · rw [q2 y hp]; exact hs
+    obtain ⟨s1, s2, s3⟩ := hstep
+    obtain ⟨i1, i2, i3⟩ := ih _ (fun D' hD' => hfull D' (by simp [hD'])) s1 s2
+    refine ⟨i1, i2, fun y h1 h2 => ⟨?_, fun hs => (i3 y h1 h2).2 ((s3 y h1 h2).2 hs)⟩⟩
+    rintro ⟨D', hD', hc⟩
+    rcases List.mem_cons.1 hD' with rfl | hmem
+    · exact (i3 y h1 h2).2 ((s3 y h1 h2).1 hc)
+    · exact (i3 y h1 h2).1 ⟨D', hmem, hc⟩
+
+/-- what the mirror needs of the inner (model) terminal: the C10 invariant of both buffers, both
+    of the same size, the rows of the active screen `RowOK`, the size within CSI-parameter range -/
+structure InnerOK (cw : Nat → Nat) (t : Term) : Prop where
+  minv : t.main.inv = true
+  ainv : t.alt.inv = true
+  size : t.main.w = t.alt.w ∧ t.main.h = t.alt.h
+  rows : ∀ y, y < t.scr.h → RowOK cw (t.scr.row y)
+  wmax : t.scr.w ≤ paramMax
+  hmax : t.scr.h ≤ paramMax
+
+namespace Lemmas
+
+theorem InnerOK_shaped {cw : Nat → Nat} {t : Term} (h : InnerOK cw t) : TM.C10.Shaped t.scr :=
+  TM.C10.Lemmas.shaped_scr (TM.C10.Lemmas.inv_shaped h.minv) (TM.C10.Lemmas.inv_shaped h.ainv)
+
+theorem InnerOK_rowlen {cw : Nat → Nat} {t : Term} (h : InnerOK cw t) (y : Nat) (hy : y < t.scr.h) :
+    (t.scr.row y).length = t.scr.w := by
+  have hs := InnerOK_shaped h
+  exact hs.2 _ (TM.C10.Lemmas.row_mem t.scr y (by rw [hs.1]; exact hy))
+
+theorem InnerOK_needWF {cw : Nat → Nat} {t : Term} (h : InnerOK cw t) : TM.C10.NeedWF t :=
+  TM.C10.Lemmas.needWF_of_inv h.minv h.ainv
+
+/-- a token keeps the size of the active screen (both buffers have the same size) -/
+theorem apply_scr_size (cw : Nat → Nat) (t : Term) (tok : Tok) (h : InnerOK cw t) :
+    (Term.apply cw t tok).1.scr.w = t.scr.w ∧ (Term.apply cw t tok).1.scr.h = t.scr.h := by
+  obtain ⟨_, g1, g2, g3, g4, _, _⟩ := TM.C10.Lemmas.apply_geo cw t tok (InnerOK_needWF h)
+  obtain ⟨z1, z2⟩ := h.size
+  have e1 : t.scr.w = t.main.w ∧ t.scr.h = t.main.h := TM.C10.Lemmas.scr_size h.size
+  have e2 : (Term.apply cw t tok).1.scr.w = (Term.apply cw t tok).1.main.w ∧
+      (Term.apply cw t tok).1.scr.h = (Term.apply cw t tok).1.main.h :=
+    TM.C10.Lemmas.scr_size ⟨by rw [g1, g3]; exact z1, by rw [g2, g4]; exact z2⟩
+  rw [e1.1, e1.2, e2.1, e2.2]
+  exact ⟨g1, g2⟩
+
+/-- a row outside the announced damage is the same row of the active screen afterwards -/
+theorem row_unannounced (cw : Nat → Nat) (t : Term) (tok : Tok) (h : InnerOK cw t) (y : Nat)
+    (hy : y < t.scr.h) (hn : ¬ TM.C10.dmgRow t tok y) :
+    (Term.apply cw t tok).1.scr.row y = t.scr.row y := by
+  have hw : 0 < t.scr.w := by
+    have := ((TM.C10.Lemmas.inv_iff t.main).1 h.minv).1
+    rw [(TM.C10.Lemmas.scr_size h.size).1]; omega
+  have hann : TM.C10.announced t tok 0 y = false := by
+    cases e : TM.C10.announced t tok 0 y with
+    | false => rfl
+    | true => exact absurd ((TM.C10.Lemmas.announced_iff t tok 0 y hw).1 e) hn
+  rw [TM.C10.Lemmas.row_eq, TM.C10.Lemmas.row_eq,
+    TM.C10.Lemmas.apply_frame cw t tok (InnerOK_shaped h) (InnerOK_needWF h) 0 y hw hy hann]
+
+end Lemmas
+open Lemmas
+
+/-- **The mirror follows one token of the model terminal.** The inner terminal `t` applies `tok`
+    (any token, buffer switches included: they announce the whole screen) and becomes `t'`; the
+    mirror — attached, region `R` — is told `RegionChanged(D)` for every region `D` the model
+    announces for the token (`Term.damage t tok`, in order), each time reading the NEW active
+    screen `t'.scr`, and the outer terminal reads what the mirror writes. (The Go code calls back
+    DURING the change, region by region; the model announces after it. Every announced region is
+    repainted from the final screen here, which is what the last callback touching a cell does.)
+    If the outer terminal fitted the old active screen, showed it inside `R` and had no wide
+    character straddling an edge of `R`, the same holds for the new active screen afterwards.
+    The model's announcements are full-width rows, so no no-cut hypothesis on the inner rows
+    remains. `InnerOK` is taken for `t` and for `t'`. -/
+theorem mirror_follows_token (cw : Nat → Nat) (m : Mirror) (ha : m.attached = true) (t : Term)
+    (tok : Tok) (o : Term) (hI : InnerOK cw t) (hI' : InnerOK cw (Term.apply cw t tok).1)
+    (og : OuterGrid o t.scr) (hs : SyncedRegion o t.scr m.region)
+    (hns : NoStraddle o t.scr m.region) (hsp : cw 32 ≤ 1)
+    (hcx : m.cx < t.scr.w) (hcy : m.cy < t.scr.h) :
+    let t' := (Term.apply cw t tok).1
+    let o' := feedDamage cw m t'.scr o ((t.damage tok).map toM)
+    SyncedRegion o' t'.scr m.region ∧ OuterGrid o' t'.scr ∧ NoStraddle o' t'.scr m.region := by
+  intro t' o'
+  obtain ⟨hw, hh⟩ : t'.scr.w = t.scr.w ∧ t'.scr.h = t.scr.h := apply_scr_size cw t tok hI
+  have og' : OuterGrid o t'.scr := og.resize hw hh
+  have hns' : NoStraddle o t'.scr m.region := by
+    unfold NoStraddle at hns ⊢; rw [hw, hh]; exact hns
+  have hfull : ∀ D ∈ (t.damage tok).map toM, D.x = 0 ∧ t'.scr.w ≤ D.x2 := by
+    intro D hD
+    obtain ⟨r, hr, rfl⟩ := List.mem_map.1 hD
+    obtain ⟨a, b⟩ := TM.C10.Lemmas.damage_fullwidth t tok r hr
+    exact ⟨a, by show t'.scr.w ≤ r.x2; rw [b, hw]; exact Nat.le_refl _⟩
+  obtain ⟨f1, f2, f3⟩ := feedDamage_spec cw m t'.scr ha
+    (fun y hy => ⟨InnerOK_rowlen hI' y hy, hI'.rows y hy⟩) hsp hI'.wmax hI'.hmax
+    (by rw [hw]; exact hcx) (by rw [hh]; exact hcy) _ o hfull og' hns'
+  refine ⟨?_, f1, f2⟩
+  intro y h1 h2
+  have hy2 : (m.region.clamp t'.scr.w t'.scr.h).y2 ≤ t'.scr.h := by simp only [MRegion.clamp]; omega
+  by_cases hd : TM.C10.dmgRow t tok y
+  · apply (f3 y h1 h2).1
+    obtain ⟨r, hr, r1, r2⟩ := hd
+    exact ⟨toM r, List.mem_map.2 ⟨r, hr, rfl⟩, r1, r2⟩
+  · apply (f3 y h1 h2).2
+    have hrow : t'.scr.row y = t.scr.row y := row_unannounced cw t tok hI y (by omega) hd
+    rw [hrow]
+    have := hs y (by rw [← hw, ← hh]; exact h1) (by rw [← hw, ← hh]; exact h2)
+    rw [← hw, ← hh] at this
+    exact this
+
+/-- the outer terminal after a list of tokens, the mirror being driven by the model terminal's
+    announcements after every token -/
+def mirrorFollow (cw : Nat → Nat) (m : Mirror) : Term → Term → List Tok → Term
+  | _, o, [] => o
+  | t, o, tok :: toks =>
+    mirrorFollow cw m (Term.apply cw t tok).1
+      (feedDamage cw m (Term.apply cw t tok).1.scr o ((t.damage tok).map toM)) toks
+
+/-- `InnerOK` in every state of the run (before every token and at the end) -/
+def InnerAlong (cw : Nat → Nat) : Term → List Tok → Prop
+  | t, [] => InnerOK cw t
+  | t, tok :: toks => InnerOK cw t ∧ InnerAlong cw (Term.apply cw t tok).1 toks
+
+theorem InnerAlong.head {cw : Nat → Nat} {t : Term} {toks : List Tok} (h : InnerAlong cw t toks) :
+    InnerOK cw t := by
+  cases toks with
+  | nil => exact h
+  | cons tok toks => exact h.1
+
+/-- **The mirror follows any run of tokens.** An attached mirror whose outer terminal fits the
+    inner terminal's active screen, shows it inside the region and has no straddler at the
+    region's edges, and which is driven by the model terminal's own announcements after every
+    token, still does so after the whole list of tokens — buffer switches, scrolls, wide
+    characters, autowrap included. (Apply it to every prefix for "after every token".) -/
+theorem mirror_follows_run (cw : Nat → Nat) (m : Mirror) (ha : m.attached = true) (hsp : cw 32 ≤ 1) :
+    ∀ (toks : List Tok) (t o : Term), InnerAlong cw t toks →
+    OuterGrid o t.scr → SyncedRegion o t.scr m.region → NoStraddle o t.scr m.region →
+    m.cx < t.scr.w → m.cy < t.scr.h →
+    SyncedRegion (mirrorFollow cw m t o toks) (TM.C10.stateAfter cw t toks).scr m.region ∧
+    OuterGrid (mirrorFollow cw m t o toks) (TM.C10.stateAfter cw t toks).scr ∧
+    NoStraddle (mirrorFollow cw m t o toks) (TM.C10.stateAfter cw t toks).scr m.region := by
+  intro toks
+  induction toks with
+  | nil => intro t o _ og hs hns _ _; exact ⟨hs, og, hns⟩
+  | cons tok toks ih =>
+    intro t o hal og hs hns hcx hcy
+    obtain ⟨hI, hrest⟩ := hal
+    have hI' := hrest.head
+    obtain ⟨q1, q2, q3⟩ := mirror_follows_token cw m ha t tok o hI hI' og hs hns hsp hcx hcy
+    obtain ⟨hw, hh⟩ := apply_scr_size cw t tok hI
+    exact ih _ _ hrest q2 q1 q3 (by rw [hw]; exact hcx) (by rw [hh]; exact hcy)
+
+/-- after `Attach` on a fresh outer terminal no wide character straddles an edge of the region -/
+theorem attach_nostraddle (cw : Nat → Nat) (pol : WidePolicy) (m : Mirror) (s : Scr)
+    (r0 : MRegion) (hne : (r0.clamp s.w s.h).isEmpty = false)
+    (hrows : ∀ y, y < s.h → (s.row y).length = s.w ∧ RowOK cw (s.row y))
+    (hsp : cw 32 ≤ 1) (hW : s.w ≤ paramMax) (hH : s.h ≤ paramMax)
+    (hcx : m.cx < s.w) (hcy : m.cy < s.h) :
+    NoStraddle (run cw (Term.init pol s.w s.h) (m.step s (.attach r0)).2).1 s r0 := by
+  obtain ⟨_, a2, a3⟩ := attach_fresh cw pol m s r0 hne hrows hsp hW hH hcx hcy
+  obtain ⟨f1, _⟩ := mirror_region_fresh cw pol s r0 hne hrows hsp hW hH
+  have hx : (r0.clamp s.w s.h).x < (r0.clamp s.w s.h).x2 := by
+    simp only [MRegion.isEmpty, Bool.or_eq_false_iff, decide_eq_false_iff_not] at hne; omega
+  have hx2 : (r0.clamp s.w s.h).x2 ≤ s.w := by simp only [MRegion.clamp]; omega
+  have hy2 : (r0.clamp s.w s.h).y2 ≤ s.h := by simp only [MRegion.clamp]; omega
+  have hrow : ∀ y, (run cw (Term.init pol s.w s.h) (m.step s (.attach r0)).2).1.main.row y =
+      (run cw (Term.init pol s.w s.h) (renderRegion s r0)).1.main.row y := by
+    intro y
+    by_cases hv : m.showCur = true ∧ m.focused = true ∧ r0.x ≤ m.cx ∧ m.cx < r0.x2 ∧
+        r0.y ≤ m.cy ∧ m.cy < r0.y2
+    · rw [a2 hv]; rfl
+    · rw [a3 hv]
+  unfold NoStraddle
+  generalize r0.clamp s.w s.h = r at f1 hx hx2 hy2 ⊢
+  intro y h1 h2
+  have hy : y < s.h := by omega
+  have hsub := (subCells_rowOK cw (s.row y) r.x r.x2 (hrows y hy).2
+    (by rw [(hrows y hy).1]; exact hx2) hsp).wf
+  have h0 := TM.C03.Lemmas.wf_cont0 hsub
+  rw [hrow, f1 y h1 h2]
+  constructor
+  · unfold contAt at h0 ⊢
+    rw [List.getElem?_append_left (by
+        rw [List.length_append, length_blankRow, subCells_length]; omega),
+      List.getElem?_append_right (by rw [length_blankRow]; exact Nat.le_refl _), length_blankRow,
+      Nat.sub_self]
+    exact h0
+  · have := contAt_blankTail (blankRow r.x Style.default ++ subCells (s.row y) r.x r.x2)
+      (s.w - r.x2) 0 Style.default
+    rw [List.length_append, length_blankRow, subCells_length,
+      show r.x + (r.x2 - r.x) + 0 = r.x2 by omega] at this
+    exact this
+
+/-- **Capstone: attach, then follow.** A mirror is attached to the region `R` of the model
+    terminal `t` on a FRESH outer terminal of the same size and from then on driven by the
+    terminal's own announcements: after any list of tokens the outer terminal, which has read
+    everything the mirror wrote, shows the terminal's active screen inside `R` (and still fits it
+    and has no straddler at the edges of `R`). -/
+theorem attach_then_follow (cw : Nat → Nat) (pol : WidePolicy) (m : Mirror) (t : Term)
+    (R : MRegion) (toks : List Tok) (hne : (R.clamp t.scr.w t.scr.h).isEmpty = false)
+    (hal : InnerAlong cw t toks) (hsp : cw 32 ≤ 1) (hcx : m.cx < t.scr.w) (hcy : m.cy < t.scr.h) :
+    let m' := (m.step t.scr (.attach R)).1
+    let o0 := (run cw (Term.init pol t.scr.w t.scr.h) (m.step t.scr (.attach R)).2).1
+    let o' := mirrorFollow cw m' t o0 toks
+    SyncedRegion o' (TM.C10.stateAfter cw t toks).scr R ∧
+    OuterGrid o' (TM.C10.stateAfter cw t toks).scr ∧
+    NoStraddle o' (TM.C10.stateAfter cw t toks).scr R := by
+  intro m' o0 o'
+  have hI := hal.head
+  have hrows : ∀ y, y < t.scr.h → (t.scr.row y).length = t.scr.w ∧ RowOK cw (t.scr.row y) :=
+    fun y hy => ⟨InnerOK_rowlen hI y hy, hI.rows y hy⟩
+  obtain ⟨b1, b2, b3, b4⟩ := attach_establishes_sync cw pol m t.scr R hne hrows hsp hI.wmax hI.hmax
+    hcx hcy
+  have b5 := attach_nostraddle cw pol m t.scr R hne hrows hsp hI.wmax hI.hmax hcx hcy
+  have hreg : m'.region = R := b2
+  have := mirror_follows_run cw m' b1 hsp toks t o0 hal b4 (by rw [hreg]; exact b3)
+    (by rw [hreg]; exact b5) hcx hcy
+  rw [hreg] at this
+  exact this
+
+/-! ### sessions: tokens of the inner terminal interleaved with cursor callbacks -/
+
+/-- the callbacks that leave the painted rows alone: `CursorMoved`, `ViewFlagChanged(ShowCursor)`,
+    `Focus`, and every other callback (which writes nothing) -/
+inductive CursorOp
+  | moved (x y : Nat)
+  | showCur (v : Bool)
+  | focus
+  | other
+
+def CursorOp.toOp : CursorOp → MirrorOp
+  | .moved x y => .cursorMoved x y
+  | .showCur v => .showCursor v
+  | .focus => .focus
+  | .other => .other
+
+/-- one step of a session: the inner terminal applies a token and the mirror is told the
+    announced regions; or the mirror receives a cursor callback -/
+inductive SessStep
+  | tok (tok : Tok)
+  | cur (c : CursorOp)
+
+/-- mirror, inner terminal, outer terminal -/
+structure Sess where
+  m : Mirror
+  t : Term
+  o : Term
+
+def Sess.step (cw : Nat → Nat) (σ : Sess) : SessStep → Sess
+  | .tok tok =>
+    ⟨σ.m, (Term.apply cw σ.t tok).1,
+      feedDamage cw σ.m (Term.apply cw σ.t tok).1.scr σ.o ((σ.t.damage tok).map toM)⟩
+  | .cur c => ⟨(σ.m.step σ.t.scr c.toOp).1, σ.t, (run cw σ.o (σ.m.step σ.t.scr c.toOp).2).1⟩
+
+def Sess.run (cw : Nat → Nat) (σ : Sess) (steps : List SessStep) : Sess :=
+  steps.foldl (Sess.step cw) σ
+
+/-- the session invariant: the mirror is attached to `R`, the outer terminal fits the inner
+    terminal's active screen, shows it inside `R`, has no straddler at the edges of `R`, and the
+    announced cursor lies on the screen -/
+structure SessInv (R : MRegion) (σ : Sess) : Prop where
+  att : σ.m.attached = true
+  reg : σ.m.region = R
+  sync : SyncedRegion σ.o σ.t.scr R
+  grid : OuterGrid σ.o σ.t.scr
+  nostr : NoStraddle σ.o σ.t.scr R
+  hcx : σ.m.cx < σ.t.scr.w
+  hcy : σ.m.cy < σ.t.scr.h
+
+/-- a `CursorMoved` announces a position on the screen -/
+def movedOK (σ : Sess) : SessStep → Prop
+  | .cur (.moved x y) => x < σ.t.scr.w ∧ y < σ.t.scr.h
+  | _ => True
+
+/-- per-step hypotheses: `InnerOK` in every state, and `movedOK` -/
+def SessOK (cw : Nat → Nat) : Sess → List SessStep → Prop
+  | σ, [] => InnerOK cw σ.t
+  | σ, st :: rest => InnerOK cw σ.t ∧ movedOK σ st ∧ SessOK cw (σ.step cw st) rest
+
+theorem SessOK.head {cw : Nat → Nat} {σ : Sess} {steps : List SessStep} (h : SessOK cw σ steps) :
+    InnerOK cw σ.t := by
+  cases steps with
+  | nil => exact h
+  | cons st rest => exact h.1
+
+/-- **a cursor callback**: what the outer terminal becomes, and that its rows are untouched -/
+theorem cursorOp_spec (cw : Nat → Nat) (m : Mirror) (s : Scr) (o : Term) (c : CursorOp)
+    (ha : m.attached = true) (ho : o.onAlt = false)
+    (hcx : (m.step s c.toOp).1.cx < o.main.w) (hcy : (m.step s c.toOp).1.cy < o.main.h)
+    (hW : o.main.w ≤ paramMax) (hH : o.main.h ≤ paramMax) :
+    let m' := (m.step s c.toOp).1
+    let T := (run cw o (m.step s c.toOp).2).1
+    m'.attached = true ∧ m'.region = m.region ∧
+    (c = .other → T = o ∧ m' = m) ∧
+    (c ≠ .other → (cursorVisible m' → T = withCursor o m'.cx m'.cy) ∧
+      (¬ cursorVisible m' → T = cursorHidden o)) ∧
+    (∀ y, T.main.row y = o.main.row y) ∧ T.onAlt = o.onAlt ∧ T.main.w = o.main.w ∧
+    T.main.h = o.main.h ∧ T.main.grid.length = o.main.grid.length := by
+  intro m' T
+  have key : ∀ (m1 : Mirror), m1.attached = true → m1.cx < o.main.w → m1.cy < o.main.h →
+      ∀ T1, T1 = (run cw o m1.renderCursor).1 →
+      ((cursorVisible m1 → T1 = withCursor o m1.cx m1.cy) ∧
+        (¬ cursorVisible m1 → T1 = cursorHidden o)) ∧
+      (∀ y, T1.main.row y = o.main.row y) ∧ T1.onAlt = o.onAlt ∧ T1.main.w = o.main.w ∧
+      T1.main.h = o.main.h ∧ T1.main.grid.length = o.main.grid.length := by
+    intro m1 h1 h2 h3 T1 hT1
+    obtain ⟨e1, e2⟩ := exec_cursor cw m1 h1 o ho h2 h3 (by omega) (by omega)
+    by_cases hv : cursorVisible m1
+    · have : T1 = withCursor o m1.cx m1.cy := by rw [hT1]; exact Exec.run (e1 hv)
+      refine ⟨⟨fun _ => this, fun h => absurd hv h⟩, ?_⟩
+      rw [this]; exact ⟨fun _ => rfl, rfl, rfl, rfl, rfl⟩
+    · have : T1 = cursorHidden o := by rw [hT1]; exact Exec.run (e2 hv)
+      refine ⟨⟨fun h => absurd h hv, fun _ => this⟩, ?_⟩
+      rw [this]; exact ⟨fun _ => rfl, rfl, rfl, rfl, rfl⟩
+  cases c with
+  | other =>
+    have hT : T = o := Exec.run (Exec.nil cw o)
+    refine ⟨ha, rfl, fun _ => ⟨hT, rfl⟩, fun h => absurd rfl h, ?_⟩
+    rw [hT]; exact ⟨fun _ => rfl, rfl, rfl, rfl, rfl⟩
+  | moved x y =>
+    obtain ⟨k1, k2⟩ := key { m with cx := x, cy := y } ha hcx hcy T rfl
+    exact ⟨ha, rfl, fun h => (by cases h), fun _ => k1, k2⟩
+  | showCur v =>
+    obtain ⟨k1, k2⟩ := key { m with showCur := v } ha hcx hcy T rfl
+    exact ⟨ha, rfl, fun h => (by cases h), fun _ => k1, k2⟩
+  | focus =>
+    obtain ⟨k1, k2⟩ := key { m with focused := true } ha hcx hcy T rfl
+    exact ⟨ha, rfl, fun h => (by cases h), fun _ => k1, k2⟩
+
+/-- one step keeps the session invariant -/
+theorem sessInv_step (cw : Nat → Nat) (R : MRegion) (σ : Sess) (st : SessStep) (hsp : cw 32 ≤ 1)
+    (inv : SessInv R σ) (hI : InnerOK cw σ.t) (hI' : InnerOK cw (σ.step cw st).t)
+    (hmv : movedOK σ st) :
+    SessInv R (σ.step cw st) := by
+  cases st with
+  | tok tok =>
+    obtain ⟨q1, q2, q3⟩ := mirror_follows_token cw σ.m inv.att σ.t tok σ.o hI hI' inv.grid
+      (by rw [inv.reg]; exact inv.sync) (by rw [inv.reg]; exact inv.nostr) hsp inv.hcx inv.hcy
+    obtain ⟨hw, hh⟩ := apply_scr_size cw σ.t tok hI
+    rw [inv.reg] at q1 q3
+    exact ⟨inv.att, inv.reg, q1, q2, q3,
+      by show σ.m.cx < (Term.apply cw σ.t tok).1.scr.w; rw [hw]; exact inv.hcx,
+      by show σ.m.cy < (Term.apply cw σ.t tok).1.scr.h; rw [hh]; exact inv.hcy⟩
+  | cur c =>
+    have hcxy : (σ.m.step σ.t.scr c.toOp).1.cx < σ.t.scr.w ∧ (σ.m.step σ.t.scr c.toOp).1.cy < σ.t.scr.h := by
+      cases c with
+      | moved x y => exact hmv
+      | showCur v => exact ⟨inv.hcx, inv.hcy⟩
+      | focus => exact ⟨inv.hcx, inv.hcy⟩
+      | other => exact ⟨inv.hcx, inv.hcy⟩
+    obtain ⟨c1, c2, _, _, c5, c6, c7, c8, c9⟩ := cursorOp_spec cw σ.m σ.t.scr σ.o c inv.att inv.grid.main
+      (by rw [inv.grid.width]; exact hcxy.1) (by rw [inv.grid.height]; exact hcxy.2)
+      (by rw [inv.grid.width]; exact hI.wmax) (by rw [inv.grid.height]; exact hI.hmax)
+    refine ⟨c1, by show (σ.m.step σ.t.scr c.toOp).1.region = R; rw [c2]; exact inv.reg,
+      ?_, ?_, ?_, hcxy.1, hcxy.2⟩
+    · intro y h1 h2
+      show Synced ((run cw σ.o _).1.main.row y) _ _ _
+      rw [c5 y]; exact inv.sync y h1 h2
+    · exact ⟨by show (run cw σ.o _).1.onAlt = false; rw [c6]; exact inv.grid.main,
+        by show (run cw σ.o _).1.main.w = _; rw [c7]; exact inv.grid.width,
+        by show (run cw σ.o _).1.main.h = _; rw [c8]; exact inv.grid.height,
+        by show (run cw σ.o _).1.main.grid.length = _; rw [c9]; exact inv.grid.glen,
+        fun y hy => by
+          show ((run cw σ.o _).1.main.row y).length = σ.t.scr.w ∧
+            rowWF ((run cw σ.o _).1.main.row y) = true
+          rw [c5 y]; exact inv.grid.rows y hy⟩
+    · intro y h1 h2
+      show contAt ((run cw σ.o _).1.main.row y) _ = false ∧ contAt ((run cw σ.o _).1.main.row y) _ = false
+      rw [c5 y]; exact inv.nostr y h1 h2
+
+/-- **The session invariant along any interleaving** of tokens of the inner terminal (announced
+    to the mirror) and cursor callbacks (`CursorMoved`, `ShowCursor`, `Focus`, others). -/
+theorem session_invariant (cw : Nat → Nat) (R : MRegion) (hsp : cw 32 ≤ 1) :
+    ∀ (steps : List SessStep) (σ : Sess), SessInv R σ → SessOK cw σ steps →
+    SessInv R (σ.run cw steps) := by
+  intro steps
+  induction steps with
+  | nil => intro σ inv _; exact inv
+  | cons st rest ih =>
+    intro σ inv hok
+    obtain ⟨hI, hmv, hrest⟩ := hok
+    exact ih _ (sessInv_step cw R σ st hsp inv hI hrest.head hmv) hrest
+
+/-- **the cursor clause**: after a `CursorMoved(x, y)` (e.g. the inner cursor `x = t.scr.cx`,
+    `y = t.scr.cy`, as `C10.cursor_last` says the last announcement is) in a session satisfying
+    the invariant, the outer cursor stands at `(x, y)` and is visible when the mirror shows the
+    cursor (`cursorVisible`: show flag, focus, position inside the region), and is hidden
+    otherwise; the rows are untouched. -/
+theorem session_cursor (cw : Nat → Nat) (R : MRegion) (σ : Sess) (x y : Nat) (inv : SessInv R σ)
+    (hI : InnerOK cw σ.t) (hx : x < σ.t.scr.w) (hy : y < σ.t.scr.h) :
+    let σ' := σ.step cw (.cur (.moved x y))
+    σ'.m.cx = x ∧ σ'.m.cy = y ∧
+    (cursorVisible σ'.m → σ'.o.main.cx = x ∧ σ'.o.main.cy = y ∧ σ'.o.vflags = σ.o.vflags.set 1 true) ∧
+    (¬ cursorVisible σ'.m → σ'.o.vflags = σ.o.vflags.set 1 false) ∧
+    (∀ y', σ'.o.main.row y' = σ.o.main.row y') := by
+  intro σ'
+  obtain ⟨_, _, _, c4, c5, _⟩ := cursorOp_spec cw σ.m σ.t.scr σ.o (.moved x y) inv.att inv.grid.main
+    (by rw [inv.grid.width]; exact hx) (by rw [inv.grid.height]; exact hy)
+    (by rw [inv.grid.width]; exact hI.wmax) (by rw [inv.grid.height]; exact hI.hmax)
+  obtain ⟨d1, d2⟩ := c4 (by intro h; cases h)
+  refine ⟨rfl, rfl, fun hv => ?_, fun hv => ?_, c5⟩
+  · have : σ'.o = _ := d1 hv
+    rw [this]; exact ⟨rfl, rfl, rfl⟩
+  · have : σ'.o = _ := d2 hv
+    rw [this]; rfl
+
 /-! ## non-vacuity -/
 
 namespace Examples
@@ -2685,6 +3530,44 @@ example (pol : WidePolicy) :
     exact ⟨(show contAt row6 0 = false by decide), (show contAt row6 6 = false by decide),
       by decide, by decide⟩
 
+/-! ### Part 8 -/
+
+/-- a fresh 6 × 2 inner terminal, and the same after a line feed -/
+def tIn (pol : WidePolicy) : Term := Term.init pol 6 2
+
+theorem innerOK_blank (t : Term) (hm : t.main.inv = true) (ha : t.alt.inv = true)
+    (hsz : t.main.w = t.alt.w ∧ t.main.h = t.alt.h) (hW : t.scr.w ≤ paramMax)
+    (hH : t.scr.h ≤ paramMax)
+    (hb : ∀ y, y < t.scr.h → t.scr.row y = blankRow t.scr.w Style.default) : InnerOK cw t :=
+  ⟨hm, ha, hsz, fun y hy => by
+    rw [hb y hy]; exact rowOK_blankRow cw _ _ (by decide) (by decide), hW, hH⟩
+
+theorem tIn_ok (pol : WidePolicy) : InnerOK cw (tIn pol) :=
+  innerOK_blank _ (by cases pol <;> decide) (by cases pol <;> decide) ⟨rfl, rfl⟩
+    (by cases pol <;> decide) (by cases pol <;> decide) (fun y hy => by
+    have : y = 0 ∨ y = 1 := by have : (tIn pol).scr.h = 2 := rfl; omega
+    rcases this with rfl | rfl <;> rfl)
+
+theorem tIn_lf_ok (pol : WidePolicy) : InnerOK cw (Term.apply cw (tIn pol) (.ctl 10)).1 :=
+  innerOK_blank _ (by cases pol <;> decide) (by cases pol <;> decide) ⟨rfl, rfl⟩
+    (by cases pol <;> decide) (by cases pol <;> decide) (fun y hy => by
+    have : y = 0 ∨ y = 1 := by
+      have : (Term.apply cw (tIn pol) (.ctl 10)).1.scr.h = 2 := rfl
+      omega
+    rcases this with rfl | rfl <;> rfl)
+
+/-- the hypotheses of `attach_then_follow` hold: attach to `[1,5) × [0,2)` on a fresh outer
+    terminal, then a line feed and a bell -/
+example (pol : WidePolicy) :
+    SyncedRegion
+      (mirrorFollow cw (({} : Mirror).step (tIn pol).scr (.attach ⟨1, 0, 5, 2⟩)).1 (tIn pol)
+        (run cw (Term.init pol 6 2) (({} : Mirror).step (tIn pol).scr (.attach ⟨1, 0, 5, 2⟩)).2).1
+        [.ctl 10, .ctl 7])
+      (TM.C10.stateAfter cw (tIn pol) [.ctl 10, .ctl 7]).scr ⟨1, 0, 5, 2⟩ :=
+  (attach_then_follow cw pol {} (tIn pol) ⟨1, 0, 5, 2⟩ [.ctl 10, .ctl 7] (by cases pol <;> decide)
+    ⟨tIn_ok pol, tIn_lf_ok pol, tIn_lf_ok pol⟩ (by decide) (by cases pol <;> decide)
+    (by cases pol <;> decide)).1
+
 end Examples
 
 end TM.C11M
@@ -2719,3 +3602,13 @@ end TM.C11M
 #print axioms TM.C11M.regionChanged_empty_keeps_sync
 #print axioms TM.C11M.attach_establishes_sync
 #print axioms TM.C11M.mirror_invariant_run
+#print axioms TM.C11M.regionChanged_keeps_sync'
+#print axioms TM.C11M.regionChanged_fullwidth
+#print axioms TM.C11M.feedDamage_spec
+#print axioms TM.C11M.mirror_follows_token
+#print axioms TM.C11M.mirror_follows_run
+#print axioms TM.C11M.attach_nostraddle
+#print axioms TM.C11M.attach_then_follow
+#print axioms TM.C11M.cursorOp_spec
+#print axioms TM.C11M.session_invariant
+#print axioms TM.C11M.session_cursor
